@@ -315,6 +315,21 @@ func (u *Unit) libModel(st *State, e *ast.CallExpr, callee *types.Func, ca callA
 		u.heapWrite(st, h, fmt.Sprintf("(store %s %s %s)", cur, sRef(res), nb))
 		st.spare = append(st.spare, spareRegion{h, sRef(b.S), c.idxAdd(sOff(b.S), sLen(b.S))})
 		return Term{S: res, T: sig.Results().At(0).Type()}, true
+	case "math/bits.LeadingZeros64", "math/bits.Len64":
+		// exact in bit-vector mode: Len64(n) is the position of the highest set bit plus one, LeadingZeros64 = 64 - Len64
+		if c.bv && len(ca.args) == 1 {
+			n := ca.args[0].S
+			ln := c.fresh("bitlen", "(_ BitVec 64)")
+			st.assume(fmt.Sprintf("(bvule %s #x0000000000000040)", ln))
+			st.assume(fmt.Sprintf("(= (= %s #x0000000000000000) (= %s #x0000000000000000))", ln, n))
+			// for n != 0: shifting right by len-1 leaves exactly 1
+			st.assume(fmt.Sprintf("(=> (not (= %s #x0000000000000000)) (= (bvlshr %s (bvsub %s #x0000000000000001)) #x0000000000000001))", n, n, ln))
+			r := ln
+			if full == "math/bits.LeadingZeros64" {
+				r = fmt.Sprintf("(bvsub #x0000000000000040 %s)", ln)
+			}
+			return Term{S: r, T: sig.Results().At(0).Type()}, true
+		}
 	case "slices.Clip":
 		// s[:len(s):len(s)]: same storage, capacity clipped; writes nothing
 		a := ca.args[0]
